@@ -30,6 +30,8 @@ type propConfig struct {
 	quickWall  time.Duration
 	thorWall   time.Duration
 	runTimeout time.Duration // watchdog for a single replayed run
+	blackbox   bool          // children keep the in-flight input in a shared file
+	stall      time.Duration // children end themselves when a run stalls this long
 	rule       string
 	assumptions []string
 	realCode   []string
@@ -37,6 +39,21 @@ type propConfig struct {
 }
 
 var configs = map[string]*propConfig{
+	"C04": {
+		id: "C04", level: "fault_enumeration", checkptr: "1", plain: true,
+		quickRuns: 250000, thorRuns: 6000000, enumQuick: true, enumThor: true,
+		memKB: 6 << 20, quickWall: 80 * time.Second, thorWall: 25 * time.Minute, runTimeout: 30 * time.Second,
+		blackbox: true, stall: 20 * time.Second,
+		rule: "writer -> faulty wire/disk -> reader. Enumeration tier: a corpus of clean messages (for every exported decode entry point three generated values of growing size encoded with the matching encoder, plus every repository mock at pkg.UnmarshalJSON, Object.UnmarshalJSON and one further JSON entry point) x every torn-write point (prefix length 0..len-1) x every single-bit flip x every single-chunk drop / duplicate / zero at chunk sizes 4, 16, 64, at the addressed entry point (thorough: also at the package-level entry point of the codec; quick: only the two smaller value sizes, and messages over 300 bytes are enumerated with a stride). Seeded tier: generated value (or mock) -> 1..3 faults from {truncate, drop/dup/swap/zero chunk, bit flip, stale tail, splice, total loss} with a per-run subset of kinds and chunk size, 1 in 8 runs misdirected to another entry point; a fault-free control configuration runs as a separate mode. Every value a decoder returns is followed up with IsNil, NotEmpty, ItemsEqual(x,x), MarshalJSON, GobEncode, fmt verbs and every read-only niladic method. distinct = distinct (run seed | corpus message, reader entry point, fault program); non-trivial = the damaged bytes differ from the clean bytes and were handed to the decoder.",
+		assumptions: []string{
+			"decides C04 for byte strings within three storage/transport faults of an encoding the library or a repository mock produces, not for all byte strings (hostile shapes no fault produces are outside, DESIGN.md §4.5)",
+			"decode errors and round-trip mismatches are counted, never reported (C01/C03/C05's subject)",
+			"the binary is built with -d=checkptr so that an out-of-bounds pointer view is a deterministic throw",
+			"hang = more than 1000 x the clean decode's steps + 10^6 + 2000 per input byte of executed library statements, or no progress for 20 s of wall clock inside uninstrumented dependencies (re-checked by replay)",
+		},
+		realCode: []string{"github.com/go-ap/activitypub (instrumented scratch copy)", "github.com/valyala/fastjson", "github.com/go-ap/jsonld", "encoding/gob", "fmt"},
+		stubCode: []string{"writer (value generator + the library's own encoders)", "wire/disk with fault programs", "reader client"},
+	},
 	"C13": {
 		id: "C13", level: "exploration", checkptr: "1", plain: true,
 		quickRuns: 150000, thorRuns: 3000000, enumQuick: true, enumThor: true,
@@ -157,15 +174,23 @@ func check(propID, tier string) int {
 	raceEnv := []string{"GOMAXPROCS=2", "GORACE=halt_on_error=1 exitcode=66 atexit_sleep_ms=0 history_size=2", "GOMEMLIMIT=3GiB"}
 	tRun := time.Now()
 	if doEnum && cfg.plain {
-		fanOutEnum(b, sc.sim, propID, tier, workers, plainEnv, cfg.memKB, deadline)
+		// the enumeration may use at most 60% of the wall budget; the seeded search gets the rest
+		enumDeadline := time.Now().Add(wall * 6 / 10)
+		fanOutEnum(b, sc.sim, propID, tier, workers, plainEnv, cfg.memKB, enumDeadline, cfg.blackbox, cfg.stall)
+		if _, hit := b.extra["deadline_reached"]; hit {
+			delete(b.extra, "deadline_reached")
+			b.extra["enum_incomplete_deadline"] = true
+		} else {
+			b.extra["enum_completed"] = true
+		}
 	}
 	if cfg.plain && runs > 0 {
-		fanOutSeeds(b, sc.sim, propID, tier, seed, runs, workers, plainEnv, cfg.memKB, 1, deadline, false)
+		fanOutSeeds(b, sc.sim, propID, tier, seed, runs, workers, plainEnv, cfg.memKB, 1, deadline, false, cfg.blackbox, cfg.stall)
 	}
 	plainRuns := b.runs
 	if cfg.race && raceRuns > 0 {
 		// the race batch uses run indices disjoint from the plain batch
-		fanOutSeeds(b, sc.simRace, propID, tier, seed^0x5ace, raceRuns, workers, raceEnv, 0, 0, deadline, true)
+		fanOutSeeds(b, sc.simRace, propID, tier, seed^0x5ace, raceRuns, workers, raceEnv, 0, 0, deadline, true, false, cfg.stall)
 	}
 	runWall := time.Since(tRun).Seconds()
 
@@ -202,7 +227,9 @@ func check(propID, tier string) int {
 			s = seed ^ 0x5ace
 		}
 		var plan *core.Plan
-		if d.k >= 0 {
+		if d.hasBox {
+			plan = &core.Plan{Property: propID, Tier: tier, Mode: "direct", Entry: d.entry, Input: d.input, Tape: []uint32{}}
+		} else if d.k >= 0 {
 			plan = &core.Plan{Property: propID, Tier: tier, Mode: "", Seed: core.Mix(s, uint64(d.k)), Tape: nil}
 			plan.Mode = "@" + strconv.FormatInt(d.k, 10) // resolved by the child from the run index
 		}
@@ -241,7 +268,7 @@ func check(propID, tier string) int {
 		}
 		plan.Property, plan.Tier = propID, tier
 		// materialise the tape when the run died before reporting it
-		if plan.Tape == nil && len(plan.Case) == 0 {
+		if plan.Tape == nil && len(plan.Case) == 0 && plan.Entry == "" {
 			mat := materialise(ev, plan)
 			if mat == nil {
 				hard = append(hard, fmt.Sprintf("class %s: death of run %s did not reproduce when re-run alone: %s", class, plan.Mode, f.detail))
@@ -249,12 +276,12 @@ func check(propID, tier string) int {
 			}
 			plan = mat
 		}
-		f.tapeLen[0] = len(plan.Tape)
+		f.tapeLen[0] = len(plan.Tape) + len(plan.Input)
 		min := plan
 		if len(plan.Case) == 0 {
 			min, f.minEvals = minimise(ev, plan, class, minBudget)
 		}
-		f.tapeLen[1] = len(min.Tape)
+		f.tapeLen[1] = len(min.Tape) + len(min.Input)
 		// replay twice in fresh processes: both must fail identically
 		r1 := ev.eval(min)
 		r2 := ev.eval(min)
